@@ -26,7 +26,7 @@ RULE = (
     "pair differing only in the last field; distinct by (definition, cfg, values, choice)."
 )
 ASSUMPTIONS = [
-    "structures here are fixed-size and union-free (unions are C11's subject); field truthiness is Python truthiness of the field value, as the generated method uses",
+    "structures here are fixed-size and, outside the through-unions stage, union-free (coherence of unions is C11's subject; through-unions looks at truth / == / hash of structure values reached through a union against the value computed from the reference); field truthiness is Python truthiness of the field value, as the generated method uses",
     "keyword arguments address direct members (an anonymous member is one positional/keyword slot under its type name)",
 ]
 
@@ -235,11 +235,114 @@ def _twin(sem, t, v):
     return None
 
 
+@st.composite
+def through_union_case(draw):
+    """Structure VALUES that are reached through a union (member of a union, element of an array inside a union, union
+    inside a structure / an array): they are structure instances like any other, so truth, equality and hash follow
+    the same rules. Inputs are mostly zero so that falsy instances are common."""
+    plain_ints = draw(st.booleans())
+    o = gens.opts(dynamic=False, wchar=False, void=False, signed_flags=False, floats=False, max_fields=4, max_depth=2, hazard=False, anon=False, zero_len=False,
+                  bits=draw(st.booleans()), char=not plain_ints, arrays=not plain_ints or draw(st.booleans()), pointers=draw(st.booleans()), struct_weight=5, bits_weight=2)
+    cfg = draw(gens.config())
+    names = gens.NameSrc(False)
+    defs = []
+    u = draw(gens.struct_type(o, defs, names, 2, kind="union", name=None))
+    form = draw(st.sampled_from(["top", "member", "array"]))
+    if form == "member":
+        root = {"k": "st", "kind": "struct", "name": None, "fields": [{"name": "pre", "t": S("uint8"), "bits": None}, {"name": "u", "t": u, "bits": None}, {"name": "post", "t": S("uint16"), "bits": None}]}
+    elif form == "array":
+        root = {"k": "st", "kind": "struct", "name": None, "fields": [{"name": "us", "t": {"k": "a", "t": u, "len": ["fixed", 2]}, "bits": None}]}
+    else:
+        root = u
+    defs.append({"k": "structdef", "n": "Root", "t": root})
+    size = Sem(defs, cfg).size(gens.ROOT)
+    kind = draw(st.sampled_from(["zero", "zero", "sparse", "sparse", "random"]))
+    data = bytearray(size)
+    if kind == "sparse" and size:
+        for _ in range(draw(st.integers(1, 3))):
+            data[draw(st.integers(0, size - 1))] = draw(st.sampled_from([1, 0x80, 0xFF, 7]))
+    elif kind == "random":
+        data = bytearray(draw(st.binary(min_size=size, max_size=size)))
+    return {"through_unions": True, "defs": defs, "root": "Root", "cfg": cfg, "data": bytes(data).hex(), "form": form, "fill": kind}
+
+
+def _ref_truth(p):
+    """Truth of a canonical plain value by the rule of the statement: a structure / union is truthy iff one of its
+    fields is; a field value has Python's truth (non-zero number, non-empty list / bytes / str)."""
+    if isinstance(p, dict):
+        return any(_ref_truth(v) for v in p.values())
+    if isinstance(p, (list, tuple, bytes, str)):
+        return len(p) > 0
+    if p is None:
+        return False
+    return p != 0
+
+
+def _run_through_unions(case, ctx):
+    m = import_repo()
+    sem = Sem(case["defs"], case["cfg"])
+    cs = common.load(case)
+    data = bytes.fromhex(case["data"])
+    a, b = lib(cs.Root, data), lib(cs.Root, data)
+    if isinstance(a, Err) or isinstance(b, Err):
+        raise Violation("parse-raised", f"{common.describe(case)} -> {a!r}", getattr(a, "where", ""))
+    desc = lambda: common.describe(case)  # noqa: E731
+    stats = {"nodes": 0, "falsy": 0, "via_union": 0, "falsy_via_union": 0}
+
+    def walk(t, x, y, path, via_union):
+        t = sem.res(t)
+        if t["k"] == "a":
+            if sem.res(t["t"])["k"] in ("st", "a") and isinstance(x, list):
+                for i, (xe, ye) in enumerate(zip(x, y)):
+                    walk(t["t"], xe, ye, f"{path}[{i}]", via_union)
+            return
+        if t["k"] != "st":
+            return
+        p = libside.plain(x)
+        want = _ref_truth(p)
+        got = lib(bool, x)
+        stats["nodes"] += 1
+        stats["via_union"] += via_union
+        if not want:
+            stats["falsy"] += 1
+            stats["falsy_via_union"] += via_union
+        if got is not want:
+            raise Violation("bool-inconsistent", f"bool({path}) is {got!r}; its value is {p!r}, so 'some field is truthy' is {want}: {desc()}")
+        if lib(lambda: not x) is not (not want):
+            raise Violation("bool-inconsistent", f"'not {path}' is {lib(lambda: not x)!r} although bool() is {got!r}: {desc()}")
+        e1, e2, ne = lib(lambda: x == y), lib(lambda: y == x), lib(lambda: x != y)
+        if e1 is not True or e2 is not True or ne is not False:
+            raise Violation("eq-inconsistent", f"{path} of two parses of the same bytes: == {e1!r} / {e2!r}, != {ne!r}; value {p!r}: {desc()}")
+        h1, h2 = lib(hash, x), lib(hash, y)
+        if isinstance(h1, Err) != isinstance(h2, Err) or (isinstance(h1, Err) and h1.type != "TypeError") or (not isinstance(h1, Err) and h1 != h2):
+            raise Violation("hash-inconsistent", f"hash({path}) of two equal instances: {h1!r} vs {h2!r}: {desc()}")
+        inside = via_union or t["kind"] == "union"
+        for i, f_ in enumerate(t["fields"]):
+            if f_.get("name") is None:
+                continue
+            lf = type(x).__fields__[i] if hasattr(type(x), "__fields__") else None
+            nm = lf._name if lf is not None else f_["name"]
+            walk(f_["t"], getattr(x, nm), getattr(y, nm), f"{path}.{f_['name']}", 1 if inside else 0)
+
+    walk(common.ROOT, a, b, "obj", 0)
+    ctx.count("through-unions:form:" + case["form"])
+    ctx.count("through-unions:fill:" + case["fill"])
+    ctx.count("through-unions:structure-values", stats["nodes"])
+    ctx.count("through-unions:structure-values-reached-through-a-union", stats["via_union"])
+    ctx.count("through-unions:falsy-values-reached-through-a-union", stats["falsy_via_union"])
+    if stats["via_union"]:
+        ctx.mark_nontrivial([case["defs"], case["cfg"], case["data"]])
+        if stats["falsy_via_union"]:
+            ctx.sample(dict(desc(), falsy_values_through_union=stats["falsy_via_union"]), "through-unions")
+
+
 def run_case(case, ctx):
     if case.get("wide"):
         return _run_wide(case, ctx)
     if case.get("charform"):
         return _run_charform(case, ctx)
+    if case.get("through_unions"):
+        return _run_through_unions(case, ctx)
     m = import_repo()
     ref = common.reference(case)
     if ref["status"] != "ok":
@@ -525,6 +628,7 @@ def stages(tier):
     q = tier == "quick"
     return [
         HypStage("values", value_case, examples=500 if q else 5000, shards=8 if q else 16),
+        HypStage("through-unions", through_union_case, examples=500 if q else 5000, shards=4 if q else 8),
         EnumStage("wide", wide_cases, shards=4, scope="field counts 13, 30..33, 64, 129, 255..257, 300 x {compiled, interpreted}: equality, hash, per-index inequality / truth / assignment locality"),
         EnumStage("char-member", char_cases, shards=2, scope="a scalar char member given each of the 256 values as bytes, int and str, by assignment (on a built and on a parsed instance) and by keyword: only its byte changes in the dump"),
         EnumStage("counts", count_cases, shards=2, scope="field counts 0..12 x 3 name orders, with same-count siblings alive"),
